@@ -364,3 +364,26 @@ Proof.
   destruct (grid_complete_counts _ _ _ _ _ _ Hg) as [_ Hc].
   apply Hne. rewrite (Hc v Hv), (Hc w Hw). reflexivity.
 Qed.
+
+(** the number of volumes is not a multiple of the number of distinct vector values *)
+Lemma dedup_vec_length st : wf0 st ->
+  length (dedup oq_eqb (map (base_vec (cfg_vec st)) (files st))) = length (vec_vals st).
+Proof.
+  intros Hwf. apply nodup_same_length; [apply dedup_nodup, oq_eqb_spec | apply (w_vec_nd st Hwf)|].
+  intros v. rewrite (dedup_in oq_eqb oq_eqb_spec), (w_vec_in st Hwf). unfold vec_of, files. rewrite map_map.
+  split; intros H; apply in_map_iff in H; destruct H as [e [<- He]]; apply in_map_iff; exists e; (split; [|exact He]);
+    destruct (w_entry st Hwf e He) as [_ [Hv _]]; congruence.
+Qed.
+
+Theorem C11_volumes_lemma st :
+  reachable st -> well_typed st ->
+  (length (files st) / length (dedup qc_eqb (map f_pos (files st))))
+    mod length (dedup oq_eqb (map (base_vec (cfg_vec st)) (files st))) <> 0 ->
+  snd (get_shape st) = Err EInvalidStack.
+Proof.
+  intros Hr Hwt Hmod. pose proof (reachable_wf st Hr) as [Hwf0 _].
+  apply C11_refuse_lemma; try assumption. intros S T V Hg.
+  destruct (grid_complete_dims st S T V Hwf0 Hg) as [HS [HT [HV [Hn [HSe [HVe _]]]]]].
+  apply Hmod. rewrite (dedup_pos_length st Hwf0), (dedup_vec_length st Hwf0). unfold files. rewrite map_length, Hn, <- HSe, <- HVe.
+  rewrite Nat.div_mul by lia. rewrite (Nat.mul_comm V T). apply Nat.mod_mul. lia.
+Qed.
